@@ -1034,8 +1034,9 @@ def cross_oracle_evmtx(prop):
             if run["model"] != "evmtx":
                 continue
             n = min(len(ops), len(impl), len(model))
+            ntok = run.get("cmp_tokens")
             for i in range(n):
-                if impl[i] == model[i]:
+                if (impl[i].split()[:ntok] == model[i].split()[:ntok]) if ntok else (impl[i] == model[i]):
                     continue
                 a = ops[i].split()
                 if len(a) < 3 or a[1] != "tx":
@@ -1625,6 +1626,15 @@ def oracle_c08(run, ops, impl):
             out.append(V("C08:query-method-changed-state:%s" % sel, {"line": i + 1, "op": op, "obs": ob}))
         fwd = int(kv.get("fwd", "0"))
         used = int(okv.get("used", "0"))
+        # the same call with ALL gas forwarded succeeded and cost `need`: a run that was forwarded clearly less cannot succeed
+        nd = okv.get("need", "-")
+        if sub == "1" and fwd > 0 and nd != "-":
+            ref_ok, ref_used = nd.split(":")
+            # (`used` is measured around the CALL: it includes the caller-side charges — 2600 cold access, and with value 9000 + 25000
+            # for an empty target — on top of what the callee burns out of the forwarded gas)
+            slack = 5000 if kv.get("val") == "0" else 40000
+            if ref_ok == "1" and fwd + slack < int(ref_used):
+                out.append(V("C08:call-succeeded-on-less-gas-than-it-costs", {"line": i + 1, "op": op, "obs": ob, "forwarded": fwd, "cost_with_all_gas": int(ref_used)}))
         if shape not in ("top",) and fwd > 0 and used > fwd + 40000:
             out.append(V("C08:call-consumed-more-gas-than-forwarded", {"line": i + 1, "op": op, "obs": ob, "forwarded": fwd, "used": used}))
     return out
@@ -1699,7 +1709,7 @@ def oracle_c06(run, ops, impl):
                 if sup > held:
                     out.append(V("C06:erc20-born-bank-supply-exceeds-module-erc20-balance:after=%s" % kind.replace(" ", "/"),
                                  {"line": i + 1, "op": op, "mapping": (t, d), "bank_supply": sup, "module_erc20_balance": held}))
-        if res == "fail" and i > 0 and ops[i].split()[1] != "reset":
+        if res == "fail" and i > 0 and ops[i].split()[1] not in ("reset", "pc2"):   # (pc2: two tolerated calls — one may stand)
             # a failed operation (incl. one inside a reverted frame) leaves every observed quantity as it was
             if ob.split(" ", 1)[1:] != impl[i - 1].split(" ", 1)[1:]:
                 out.append(V("C06:failed-or-reverted-operation-changed-state:%s" % kind.replace(" ", "/"), {"line": i + 1, "op": op, "before": impl[i - 1][:300], "after": ob[:300]}))
